@@ -74,7 +74,7 @@ SetChunk(i, c) ==
   /\ UNCHANGED tbl
 
 SetOffset(i, k) ==
-  /\ inst[i].alive /\ k <= inst[i].cap
+  /\ inst[i].alive /\ (inst[i].ext => k <= inst[i].cap)      \* (C07 speaks about offsets 0..n of a caller buffer; a library-managed buffer takes any offset and grows to it)
   /\ inst' = [inst EXCEPT ![i].off = k]
   /\ last' = [NoLast EXCEPT !.act = "offset", !.i = i]
   /\ Log([op |-> "offset", i |-> i, k |-> k])
@@ -153,7 +153,8 @@ P_C07_Contained(L, I0, I1) ==
      /\ (L.ret = 0 => \A j \in 1..Len(L.r.items) : L.r.items[j].pos + T <= L.cap0)
 \* C07/C15: a call never changes a cell before its start offset (hence a split program = the whole program, C06)
 P_PrefixKept(L, I0, I1) ==
-  IsCall(L) => Slice(I1[L.i].buf, 0, L.off0) = Slice(I0[L.i].buf, 0, L.off0)
+  IsCall(L) => LET n == IF L.off0 <= Len(I0[L.i].buf) THEN L.off0 ELSE Len(I0[L.i].buf) IN      \* (an offset beyond the capacity: every cell that existed)
+               Slice(I1[L.i].buf, 0, n) = Slice(I0[L.i].buf, 0, n)
 \* C08: a library-managed buffer never fails for lack of room; everything written is inside the (grown) capacity
 P_C08_Growth(L, I0, I1) ==
   (IsCall(L) /\ ~L.ext) => /\ L.r.why # "room"
